@@ -41,7 +41,7 @@ func checkAuthBits(c *km.Ctx, s *km.Sem, checkAuth *ssa.Function, rule string) {
 	}
 	fam := map[*ssa.Function]bool{checkAuth: true}
 	for f := range reachableFrom(c, famStop, checkAuth) {
-		if famStop[f] || f.Pkg == nil || f.Pkg.Pkg.Path() != KMD {
+		if famStop[f] || f.Pkg == nil || !pkgIsKMD(f.Pkg) {
 			continue
 		}
 		res := f.Signature.Results()
